@@ -47,7 +47,6 @@ func init() {
 
 type c04 struct {
 	*c06 // reuse anchors of C06 (same package)
-	pageAddr, frameAddr, pageFrom *ssa.Function
 	pdtMap, pdtUnmap              *ssa.Function
 	levels                        uint64
 	flagHuge                      uint64
@@ -66,13 +65,12 @@ func runC04(c *Ctx) {
 	base.pte = m.lookupType(vmm, "pageTableEntry")
 	base.pdtFrameF = m.fieldOf(vmm, "PageDirectoryTable", "pdtFrame")
 	x := &c04{c06: base}
-	x.pageAddr, x.frameAddr, x.pageFrom = m.lookupMethod("mm", "Page", "Address"), m.lookupMethod("mm", "Frame", "Address"), m.lookupFunc("mm", "PageFromAddress")
 	x.pdtMap, x.pdtUnmap = m.lookupMethod(vmm, "PageDirectoryTable", "Map"), m.lookupMethod(vmm, "PageDirectoryTable", "Unmap")
 	for name, v := range map[string]interface{}{
 		"vmm.Map": base.mapFn, "vmm.Unmap": base.unmap, "vmm.walk": base.walk, "vmm.pageFaultHandler": base.pfh, "pte.SetFrame": base.setFrame,
 		"pte.SetFlags": base.setFlags, "pte.ClearFlags": base.clearFlags, "pte.HasFlags": base.hasFlags, "mm.AllocFrame": base.allocFrame,
 		"kernel.Memset": base.memset, "cpu.FlushTLBEntry": base.flush, "cpu.ActivePDT": base.activePDT, "vmm.pageTableEntry": base.pte,
-		"PageDirectoryTable.pdtFrame": base.pdtFrameF, "mm.Page.Address": x.pageAddr, "mm.Frame.Address": x.frameAddr, "mm.PageFromAddress": x.pageFrom,
+		"PageDirectoryTable.pdtFrame": base.pdtFrameF,
 		"PageDirectoryTable.Map": x.pdtMap, "PageDirectoryTable.Unmap": x.pdtUnmap,
 	} {
 		if isNilIface(v) {
@@ -215,8 +213,9 @@ func (x *c04) r1r2r4r5() {
 			if !m.callsTo(g.Ins[n], x.flush) {
 				return false
 			}
-			call, ok := m.resultOf(g.callArgs(n)[0], x.pageAddr, -1)
-			return ok && isParamValue(call.Common().Args[0], pageP)
+			// the address of the page: page << PageShift, however it is spelled
+			zf := &Polyizer{}
+			return zf.Of(g.callArgs(n)[0]).equal(zf.Of(pageP).mul(polyConst(int64(x.pageSize))))
 		}
 		bad = ""
 		for _, wn := range writes {
@@ -540,8 +539,14 @@ func (x *c04) r3() {
 		f0, _ := condFact(g.Cond(grp.Ifs[0]), true)
 		var activeV ssa.Value // the operand derived from activePDTFn
 		for _, v := range []ssa.Value{f0.X, f0.Y} {
-			if _, ok := m.resultOf(stripConvShift(v), x.activePDT, -1); ok {
-				activeV = v
+			// the frame of the address activePDTFn() returns: that address / PageSize,
+			// however it is spelled (a shift, FrameFromAddress, ...)
+			root := stripConvShift(v)
+			if _, ok := m.resultOf(root, x.activePDT, -1); ok {
+				za := &Polyizer{}
+				if sh, okSh := log2(x.pageSize); okSh && za.Of(v).equal(pFdiv(sh, za.Of(root))) {
+					activeV = v
+				}
 			}
 		}
 		inner := g.callNodes(pr.inner)
@@ -611,9 +616,12 @@ func (x *c04) r3() {
 			}
 			// the entry address is the last slot of the active table: Address(active) + const
 			if bad == "" && entryAddr != nil {
-				if add, ok := entryAddr.(*ssa.BinOp); !ok || add.Op != token.ADD {
+				// address of the active frame plus a constant offset inside the page
+				ze := &Polyizer{}
+				base := ze.Of(activeV).mul(polyConst(int64(x.pageSize)))
+				if add, ok := stripConv(entryAddr).(*ssa.BinOp); !ok || add.Op != token.ADD {
 					bad = "the recursive entry address is not derived from the active table's address"
-				} else if call, ok := m.resultOf(add.X, x.frameAddr, -1); !ok || call.Common().Args[0] != activeV {
+				} else if !ze.Of(add.X).equal(base) && !ze.Of(add.Y).equal(base) {
 					bad = "the recursive entry address is not inside the active table"
 				}
 			}
@@ -658,10 +666,15 @@ func (x *c04) r3() {
 // stripConvShift removes conversions and a constant right shift (address -> frame).
 func stripConvShift(v ssa.Value) ssa.Value {
 	v = stripConv(v)
-	if b, ok := v.(*ssa.BinOp); ok && b.Op == token.SHR {
-		if _, ok := constUint64(b.Y); ok {
-			return stripConv(b.X)
+	for i := 0; i < 3; i++ {
+		b, ok := v.(*ssa.BinOp)
+		if !ok || (b.Op != token.SHR && b.Op != token.AND && b.Op != token.AND_NOT) {
+			break
 		}
+		if _, ok := constUint64(b.Y); !ok {
+			break
+		}
+		v = stripConv(b.X)
 	}
 	return v
 }
@@ -694,6 +707,8 @@ func (x *c04) regionRule(rule string, names []string) {
 		}
 		// the loop in induction form: page and frame as functions of the
 		// iteration number T, and the trip count
+		// (merged values are taken as they are at the map call)
+		z.Subst = g.substAt(cn)
 		lf, inLoop := g.loopFormAt(z, g.Ins[cn].Block())
 		if !inLoop {
 			bad = "the map call is not in a loop"
@@ -731,6 +746,7 @@ func (x *c04) regionRule(rule string, names []string) {
 			}
 			lf.Done()
 		}
+		z.Subst = nil
 		// first error returned
 		if bad == "" {
 			call := g.Ins[cn].(*ssa.Call)
